@@ -1,7 +1,7 @@
 #!/venv/bin/python
 """tools/disagree.py PROP [tier] — development aid: histogram of disagreement / failure reasons"""
 import json, sys, collections, importlib
-import os; sys.path.insert(0, os.path.dirname(os.path.dirname(os.path.abspath(__file__))))
+sys.path.insert(0, '/verif')
 from harness import common as H
 prop = sys.argv[1]; tier = sys.argv[2] if len(sys.argv) > 2 else 'quick'
 mod = importlib.import_module('harness.props.' + prop.lower())
